@@ -602,7 +602,10 @@ func (s *Server) serveListReposErr(q query.Q, qStr string, r *http.Request) (*Re
 		for _, b := range r.Repository.Branches {
 			var buf bytes.Buffer
 			if err := t.Execute(&buf, b); err != nil {
-				return nil, err
+				// A repository's template must not make the whole
+				// listing unavailable; omit the URL as search results do.
+				log.Printf("commit url template: %v", err)
+				buf.Reset()
 			}
 			repo.Branches = append(repo.Branches,
 				Branch{
